@@ -128,6 +128,7 @@ type VC struct {
 	cfReach        map[int]map[int]bool // acyclic reachability between the top-level function's blocks
 	loopFocus      map[*Loop]*cutRec
 	focusLoop      *Loop // set while the preservation obligations of a loop are generated
+	root           *Frame // frame of the function under contract
 	cuts           []*cutRec
 	reqStart       int               // context length before the requires clauses
 	curBlock       *ssa.BasicBlock   // block of the top-level frame being executed
